@@ -187,7 +187,7 @@ COMMON_ASSUMPTIONS = [
 
 def generic(pid, tier, *, profiles, own, twin_flag=None, n_quick=400, n_thorough=4000, cfgs=None,
             real_n=0, level="model_checking", extra_assumptions=None, rule=None, chunk=None, gen_kwargs=None,
-            blocks_view=None, drop=("reclaim",)):
+            blocks_view=None, drop=("reclaim",), extra_stage=None):
     """profiles: list of generator profile names; own(div) -> bool says whether a rejected
     execution is this property's business; twin_flag: ops carrying this flag are removed to
     build the twin execution (the property is blamed only if the twin is accepted)."""
@@ -256,6 +256,8 @@ def generic(pid, tier, *, profiles, own, twin_flag=None, n_quick=400, n_thorough
     coverage.update(real_cov)
     if blocks_view:
         coverage = ck.merge_blocks(blocks_view, coverage)
+    if extra_stage:
+        coverage = extra_stage(ck, coverage)      # a design-model stage: (EngineCheck, coverage) -> coverage
     return ck.finish(level, coverage, COMMON_ASSUMPTIONS + (extra_assumptions or []))
 
 
